@@ -2099,6 +2099,11 @@ def scenario(sim, k):
             sim.loaded[ln].discard(b)
         ops += sim.rename(ln, a, b)
         if rng.random() < 0.3:
+            # ... and deleted under its new name: the file of that name, which the glyph never read, is scheduled
+            ops.append(["gdel", ln, b])
+            sim.mem_layers[ln].discard(b)
+            sim.loaded[ln].discard(b)
+        if rng.random() < 0.3:
             ops.append(["xglyph", ln, rng.choice([a, b]), "touch", None, sim.time()])
         if rng.random() < 0.5:
             ops += [["test"]] + sim.save() + [["test"]]
@@ -2114,6 +2119,11 @@ def scenario(sim, k):
         sim.gspecs.pop((ln, gn), None)
         if rng.random() < 0.5:
             ops.append(["gset", ln, gn, g(gn)])
+        if rng.random() < 0.35:
+            # ... and deleted again: the glyph object has no stamp, the file is scheduled as it is on disk
+            ops.append(["gdel", ln, gn])
+            sim.mem_layers[ln].discard(gn)
+            sim.loaded[ln].discard(gn)
         r = rng.random()
         if r < 0.3:
             ops.append(["xglyph", ln, gn, "touch", None, sim.time()])
